@@ -575,6 +575,9 @@ def _no_intervening_mutation(blk: list[ast.stmt], st: ast.stmt, name: str, clash
         uses_in_body = any(isinstance(n, ast.Name) and n.id == name for b in (tail.body, tail.orelse) for s_ in b for n in ast.walk(s_))
         if isinstance(tail, ast.If) and uses_in_test and not uses_in_body:
             return True
+    if isinstance(tail, (ast.Assign, ast.AnnAssign, ast.AugAssign)) and getattr(tail, "value", None) is not None:
+        # the targets are bound after the value has been evaluated: only mutations inside the value expression matter
+        return not _mutates([ast.Expr(value=tail.value)], clash)
     return not _mutates([tail], clash)
 
 
